@@ -16,7 +16,7 @@ import (
 
 // c02.swap — one writer publishes freshly built tables, alternating between two configurations A and B with
 // disjoint target sets (and some routes only in A or only in B), interleaved with SetTable(nil); 16–32 readers do
-// what fabio's request path does: `route.GetTable().Lookup(…)`. Every answer must belong wholly to the table the
+// what fabio's request paths do: `route.GetTable().Lookup(…)` (HTTP) and `route.GetTable().LookupHost(…)` (TCP/SNI). Every answer must belong wholly to the table the
 // reader loaded: the route it names must be the route that table prescribes for the request and the target must
 // be one of that route's targets (service name and URL host both name table, route and target). Per reader the
 // loaded tables must appear in publication order; readers that also sample the writer's counters must see a
@@ -97,6 +97,10 @@ type obs struct {
 	lo, hi int64 // window of publication numbers (lin readers), -1 otherwise
 }
 
+func mkReqOf(host, path string) *http.Request {
+	return &http.Request{Host: host, URL: &url.URL{Path: path}, Header: http.Header{}}
+}
+
 func runSwap(raw json.RawMessage) (interface{}, error) {
 	var in swapIn
 	if err := json.Unmarshal(raw, &in); err != nil {
@@ -128,15 +132,25 @@ func runSwap(raw json.RawMessage) (interface{}, error) {
 	pick := route.Picker["rnd"]
 	texts := map[string]string{"A": swapText("A", in.Routes), "B": swapText("B", in.Routes)}
 
-	type reqT struct{ host, path string }
+	// hostOnly: the request is looked up with LookupHost (the TCP / SNI listeners' path: lookupHostFn in main.go)
+	type reqT struct {
+		host, path string
+		hostOnly   bool
+	}
 	var reqs []reqT
 	for _, h := range swapHosts {
 		for _, p := range swapPaths {
-			reqs = append(reqs, reqT{h, p})
+			reqs = append(reqs, reqT{h, p, false})
 		}
 	}
-	mkReq := func(q int) *http.Request {
-		return &http.Request{Host: reqs[q].host, URL: &url.URL{Path: reqs[q].path}, Header: http.Header{}}
+	for _, h := range []string{"", "bar.com", "foo.com", "BAR.com", "other.example"} {
+		reqs = append(reqs, reqT{h, "", true})
+	}
+	lookup := func(t route.Table, q int, gc *route.GlobCache) *route.Target {
+		if reqs[q].hostOnly {
+			return t.LookupHost(reqs[q].host, pick)
+		}
+		return t.Lookup(mkReqOf(reqs[q].host, reqs[q].path), "", pick, match, gc, false)
 	}
 	// what each configuration prescribes for each request (sequential lookups on a private table)
 	expected := map[string][]int{"E": make([]int, len(reqs))}
@@ -151,7 +165,7 @@ func runSwap(raw json.RawMessage) (interface{}, error) {
 		gc := route.NewGlobCache(16)
 		exp := make([]int, len(reqs))
 		for q := range reqs {
-			f, idx, bad := answerOf(t.Lookup(mkReq(q), "", pick, match, gc, false))
+			f, idx, bad := answerOf(lookup(t, q, gc))
 			if bad != "" || (idx >= 0 && f != fam) {
 				return nil, fmt.Errorf("sequential lookup inconsistent: %s", bad)
 			}
@@ -185,7 +199,7 @@ func runSwap(raw json.RawMessage) (interface{}, error) {
 				}
 				// --- the request path of main.go: one GetTable, then Lookup on that snapshot ---
 				t := route.GetTable()
-				tg := t.Lookup(mkReq(q), "", pick, match, gc, false)
+				tg := lookup(t, q, gc)
 				// ---
 				if lin {
 					o.hi = atomic.LoadInt64(&started)
